@@ -506,7 +506,8 @@ func mustErrorText(t *rapid.T) (gen.TextCase, string) {
 	}
 	expr := bad
 	if !strings.HasPrefix(why, "chained") {
-		expr = rapid.SampledFrom([]string{"$x == %s", "%s == $x", "$s.contains(%s)", "(%s) == $x", "!($x == %s)", "1 + 2 < 3 || $x == %s"}).Draw(t, "exprshape")
+		// "%s" alone: the offending term is the whole expression (no operator follows it)
+		expr = rapid.SampledFrom([]string{"$x == %s", "%s == $x", "$s.contains(%s)", "(%s) == $x", "!($x == %s)", "1 + 2 < 3 || $x == %s", "%s", "%s"}).Draw(t, "exprshape")
 		expr = fmt.Sprintf(expr, bad)
 	}
 	body := "q($x), " + pred
